@@ -720,8 +720,8 @@ def pred_c08(ops, impl):
             target = ALL
             if items and len(items) > 2 and isinstance(items[2], list) and items[2] and items[2][0] == "exec":
                 sc = items[2][2] if len(items[2]) > 2 else []
-                if isinstance(sc, list) and all(isinstance(a, list) and a and a[0] in ("w", "rm", "rd", "rng", "rngk", "fail") for a in sc):
-                    target = None if all(a[0] in ("rd", "rng", "rngk", "fail") for a in sc) else b.get(items[2][1], items[2][1])
+                if isinstance(sc, list) and all(isinstance(a, list) and a and a[0] in ("w", "rm", "rd", "rng", "rngk", "rngv", "fail") for a in sc):
+                    target = None if all(a[0] in ("rd", "rng", "rngk", "rngv", "fail") for a in sc) else b.get(items[2][1], items[2][1])
             if target is ALL:
                 stale = set(dumps)
             elif target is not None:
